@@ -204,8 +204,11 @@ package xtype
 //@ func toChan
 //@   props C01 C18
 //@   ensures result != nil
+// C13: the panic for an unsupported kind is reachable for unsafe.Pointer (kind 18) whenever such a type has to be
+// written out: known finding F1b (uintptr was repaired; unsafe.Pointer cannot be rendered without importing unsafe,
+// which C18 forbids, and toCodeBasic has no way to report an error)
 //@ func toCodeBasic
-//@   props C01 C18
+//@   props C01 C18 C13
 //@   ensures result != nil
 
 //@ func SignatureOf
